@@ -22,6 +22,7 @@ type Clause struct {
 
 type LoopContract struct {
 	Invariants []*Clause
+	Steps      []*Clause // per-iteration postconditions: hold at every back edge (locals of the body in scope; loophead(e) = value at the head of the iteration)
 	Decreases  *Clause
 	Modifies   *Clause
 }
@@ -190,6 +191,12 @@ func ParseContractFile(path string) ([]*Contract, []*Decl, error) {
 					return nil, nil, err
 				}
 				lc.Invariants = append(lc.Invariants, c)
+			case "step":
+				c, err := mk("step", text)
+				if err != nil {
+					return nil, nil, err
+				}
+				lc.Steps = append(lc.Steps, c)
 			case "decreases":
 				c, err := mk("decreases", text)
 				if err != nil {
